@@ -39,7 +39,7 @@ theorem readingByCandle_strip {N : List String} {name : String} (hr : readOK N n
   · rename_i main nested hsp
     rw [hsp] at hr
     have hm : main ∉ N := by simpa using hr
-    rw [strip_inds, strip_subs, dlookup_eraseAll_of_not_mem hm, dlookup_eraseAll_of_not_mem hm]
+    rw [strip_inds, strip_subs, Writes.dlookup_eraseAll_of_not_mem hm, Writes.dlookup_eraseAll_of_not_mem hm]
   · rename_i hns
     rw [strip_attr]
     cases ha : c.attr name with
@@ -57,12 +57,12 @@ theorem readingByCandle_strip {N : List String} {name : String} (hr : readOK N n
           · exact absurd h h1'
           · simpa using h
       dsimp only
-      rw [strip_inds, strip_subs, dlookup_eraseAll_of_not_mem hn, dlookup_eraseAll_of_not_mem hn]
+      rw [strip_inds, strip_subs, Writes.dlookup_eraseAll_of_not_mem hn, Writes.dlookup_eraseAll_of_not_mem hn]
 
 /-! ### indexing into a mapped list -/
 
 omit [PyF F] in
-theorem pyIndex_map {α β : Type} (g : α → β) (l : List α) (j : Int) :
+theorem Writes.pyIndex_map {α β : Type} (g : α → β) (l : List α) (j : Int) :
     pyIndex (l.map g) j = g <$> pyIndex l j := by
   unfold pyIndex
   simp only [List.length_map]
@@ -75,7 +75,7 @@ theorem pyIndex_map {α β : Type} (g : α → β) (l : List α) (j : Int) :
     cases o <;> rfl
 
 omit [PyF F] in
-theorem pySlice_map {α β : Type} (g : α → β) (l : List α) (a b : Int) :
+theorem Writes.pySlice_map {α β : Type} (g : α → β) (l : List α) (a b : Int) :
     pySlice (l.map g) a b = (pySlice l a b).map g := by
   have key : ∀ s e : Int,
       (if s ≥ e then [] else ((l.map g).drop s.toNat).take (e - s).toNat)
@@ -93,7 +93,7 @@ variable {N : List String}
 theorem readingByIndex_strip {name : String} (hr : readOK N name = true) (cs : List (Candle F)) (j : Int) :
     readingByIndex (cs.map (strip N)) name j = readingByIndex cs name j := by
   unfold readingByIndex
-  simp only [List.length_map, pyIndex_map]
+  simp only [List.length_map, Writes.pyIndex_map]
   split
   · cases pyIndex cs j with
     | error e => rfl
@@ -115,7 +115,7 @@ theorem map_readingByCandle_strip {name : String} (hr : readOK N name = true) (l
 theorem candlesSum_strip {name : String} (hr : readOK N name = true) (cs : List (Candle F))
     (length : Int) (j : Int) : candlesSum (cs.map (strip N)) name length j = candlesSum cs name length j := by
   unfold candlesSum
-  simp only [List.length_map, pySlice_map, map_readingByCandle_strip hr]
+  simp only [List.length_map, Writes.pySlice_map, map_readingByCandle_strip hr]
 
 /-! ### the context accessors -/
 
@@ -123,7 +123,7 @@ theorem Ctx.reading_strip {name : String} (hr : readOK N name = true) (cs : List
     (nm : String) (idx : Option Int) :
     Ctx.reading ⟨cs.map (strip N), i, nm⟩ name idx = Ctx.reading ⟨cs, i, nm⟩ name idx := by
   unfold Ctx.reading
-  simp only [pyIndex_map]
+  simp only [Writes.pyIndex_map]
   cases pyIndex cs (idx.getD i) with
   | error e => rfl
   | ok c => simp [readingByCandle_strip hr]
@@ -172,11 +172,11 @@ theorem Ctx.prevNum_strip {name : String} (hr : readOK N name = true) (cs : List
 /-! ### `if` under `<$>` and `>>=` (specialised: the general `apply_ite` loops in `simp`) -/
 
 omit [PyF F] in
-theorem map_ite' {α β : Type} (g : α → β) (c : Prop) [Decidable c] (a b : PyM α) :
+theorem Writes.map_ite' {α β : Type} (g : α → β) (c : Prop) [Decidable c] (a b : PyM α) :
     g <$> (if c then a else b) = if c then g <$> a else g <$> b := by split <;> rfl
 
 omit [PyF F] in
-theorem ite_bind' {α β : Type} (c : Prop) [Decidable c] (a b : PyM α) (f : α → PyM β) :
+theorem Writes.ite_bind' {α β : Type} (c : Prop) [Decidable c] (a b : PyM α) (f : α → PyM β) :
     (if c then a else b) >>= f = if c then a >>= f else b >>= f := by split <;> rfl
 
 end Hex
